@@ -95,4 +95,20 @@ func VerifC06Replay() {
 	got, gerr := o.Get(context.Background(), probe)
 	vstub.Assert(gerr == nil, "C06 Get returns no error")
 	vstub.Assert(string(got) == string(ref[probe]), "C06 Get equals the replay's lookup")
+
+	// the map All() handed out belongs to the caller: filtering it or adding to it
+	// must not change what the store shows afterwards
+	for k := range all {
+		delete(all, k)
+	}
+	all["\x00caller"] = []byte("caller")
+	vstub.Cover("caller-edited-the-map")
+	again := o.All()
+	vstub.Assert(len(again) == len(ref), "C06 All() still has exactly the keys of the replay after the caller edited an earlier result")
+	for k, v := range ref {
+		g, ok := again[k]
+		vstub.Assert(ok && string(g) == string(v), "C06 All() is unaffected by a caller editing an earlier result")
+	}
+	got2, _ := o.Get(context.Background(), probe)
+	vstub.Assert(string(got2) == string(ref[probe]), "C06 Get is unaffected by a caller editing the map All() returned")
 }
